@@ -552,7 +552,7 @@ def traj_reps(ctx) -> None:
         inner_ok = False
         if ok and all(nodes):
             outer, inner = nodes
-            it2 = inner.iter
+            it2 = util.inline_locals(g, inner.iter)   # `n = samples.reps; for _ in range(n)` is the same loop
             inner_ok = isinstance(it2, ast.Call) and util.text(it2.func) == "range" and len(it2.args) == 1 and \
                 isinstance(it2.args[0], ast.Attribute) and it2.args[0].attr == "reps" and \
                 isinstance(it2.args[0].value, ast.Name) and isinstance(outer.target, ast.Name) and \
@@ -615,6 +615,7 @@ def interact(ctx) -> None:
     ctx.require(gp, "get_sequences: no path")
     user = ("attr", SELF, "full_interaction_matrix")
     checked = False
+    pols = set()
     for p in gp:
         news = [e for e in p.events if e.kind == "call" and e.name.endswith("_InteractionMatrixCallable")]
         if not news:
@@ -625,11 +626,10 @@ def interact(ctx) -> None:
         for c, t in p.cond_log:
             if "full_interaction_matrix is None" in show(c):
                 user_pref = t
-        if checked:
-            continue
         checked = True
         # (1) source: user matrix when given, register matrix otherwise — established by the ifexp / branches
         src_ok = _source_ok(p, full, user)
+        pols.add(_is_none(p, user))
         ctx.ob("INTERACT", "source preference", e.loc(), src_ok,
                "the user-supplied matrix is used when given, the register's otherwise" if src_ok else
                f"full matrix provenance {show(full)[:120]} does not prefer config.interaction_matrix")
@@ -690,6 +690,7 @@ def interact(ctx) -> None:
         ctx.ob("INTERACT", "slm_end_time", e.loc(), okslm,
                "slm_end_time is forwarded" if okslm else f"slm_end_time={show(slm)[:60]}")
     ctx.require(checked, "INTERACT: _InteractionMatrixCallable construction not found")
+    ctx.require(pols in ({None}, {True, False}), f"INTERACT: paths of get_sequences decide `full_interaction_matrix is None` as {pols}")
     # (5) the callable: masked strictly before the SLM end, full from then on
     c, cp = _run(ctx, PA + "_InteractionMatrixCallable.__call__", cls=PA + "_InteractionMatrixCallable")
     sel = {}
@@ -710,10 +711,32 @@ def interact(ctx) -> None:
            f"the time switch of the interaction matrix is {[(k, show(v)) for k, v in sel.items()]}")
     # slm end time from the sequence
     fdp = field_defs(prog, prog.cls(PA + "PulserData"))
-    okend = any("_slm_mask_time[1]" in show(v) and "0.0" in show(v) for v, _ in fdp.get("slm_end_time", []))
+    defs_end = fdp.get("slm_end_time", [])
+    okend = any("_slm_mask_time[1]" in show(v) and "0.0" in show(v) for v, _ in defs_end)
+    if not okend:
+        # the same selection written as two paths: mask time set (len(_slm_mask_time) > 1) → its end, otherwise 0.0
+        got = {}
+        for v, ev in defs_end:
+            if ev is None:
+                continue
+            d = [t for c, t in ev.conds if "_slm_mask_time" in show(c) and strip_typed(c)[0] == "cmp"
+                 and strip_typed(c)[1] == ">" and is_const(strip_typed(c)[3], 1)]
+            if d:
+                got[d[-1]] = strip_typed(v)
+        okend = set(got) == {True, False} and "_slm_mask_time[1]" in show(got[True]) and is_const(got[False], 0.0)
     ctx.ob("INTERACT", "slm end", prog.func(PA + "PulserData.__init__").loc(), okend,
            "slm_end_time = sequence._slm_mask_time[1] when an SLM mask is set, 0.0 otherwise" if okend else
            f"slm_end_time is {[show(v)[:80] for v, _ in fdp.get('slm_end_time', [])]}")
+
+
+def _is_none(p: Path, user):
+    """How the path decided `user is None` (True / False), None when it did not."""
+    d = None
+    for c, t in p.cond_log:
+        c = strip_typed(c)
+        if c[0] == "cmp" and c[1] in ("is", "isnot", "==", "!=") and strip_typed(c[2]) == user and c[3] == ("const", None):
+            d = t if c[1] in ("is", "==") else (not t)
+    return d
 
 
 def _source_ok(p: Path, full, user) -> bool:
@@ -726,6 +749,11 @@ def _source_ok(p: Path, full, user) -> bool:
         isn = c[0] == "cmp" and c[1] == "is" and strip_typed(c[2]) == user and c[3] == ("const", None)
         reg = "trajectory.interaction_matrix" in show(b if isnt else a)
         return (isnt and a == user and reg) or (isn and b == user and reg)
+    d = _is_none(p, user)
+    if d is False:
+        return t == user                                   # a user matrix is present on this path: it is the source
+    if d is True:
+        return "trajectory.interaction_matrix" in show(t)  # none given: the register's matrix
     return False
 
 
